@@ -167,6 +167,38 @@ def main():
         .create_ask("seller", [(5, "base")], A1, "base", "q", "2", 5).create_bid("buyer", [(10, "q")], B1, None, "2", "q", 10, 5) \
         .modify("exec", afr="0.0125", afa="feea").modify("exec", afr="0.00999", afa="feea").modify("exec", afr="0.010", afa="feea") \
         .modify("exec", bfr="0.014", bfa="feeb").modify("exec", bfr="0.0100", bfa="feeb").query("get_contract_info").write()
+    # overlapping denominations: the base also a quote, a convertible ask quoted in the base, mixed marker types
+    for mk, tag in (({"base": "R", "cv": "U"}, "base_restricted"), ({"base": "U", "cv": "R"}, "cv_restricted")):
+        H("c10_base_as_quote_" + tag, "base denomination also a quote; convertible ask quoted in it; " + tag).env(markers=mk) \
+            .inst(quotes=("q", "base"), afr="0.1", afa="feea", bfr="0.1", bfa="feeb") \
+            .create_ask("seller", [] if mk["cv"] == "R" else [(10, "cv")], A1, "cv", "base", "2", 10) \
+            .approve("appr", [] if mk["base"] == "R" else [(10, "base")], A1, "base", 10) \
+            .create_bid("buyer", [] if mk["base"] == "R" else [(22, "base")], B1, (2, "base"), "2", "base", 20, 10) \
+            .match("exec", A1, B1, "2", 4).exits(owner_a="seller", owner_b="buyer").match("exec", A1, B1, "2", 6).write()
+    H("c07_duplicate_attributes", "required attribute lists with repeats; accounts holding a name twice") \
+        .env(attrs={"seller": ["kyc", "kyc"], "buyer": ["kyc", "kyc"], "other": ["kyc", "acc"]}) \
+        .inst(aattrs=("kyc", "acc"), battrs=("kyc", "acc")) \
+        .create_ask("seller", [(5, "base")], A1, "base", "q", "2", 5).create_bid("buyer", [(10, "q")], B1, None, "2", "q", 10, 5) \
+        .create_ask("other", [(5, "base")], A2, "base", "q", "2", 5).create_bid("other", [(10, "q")], B2, None, "2", "q", 10, 5) \
+        .modify("exec", aattrs=["kyc", "kyc"], battrs=["kyc", "kyc"]) \
+        .create_ask("seller", [(5, "base")], A1, "base", "q", "2", 5).create_bid("buyer", [(10, "q")], B1, None, "2", "q", 10, 5).write()
+    H("c05_same_id_cancel_roles", "one id open on both sides with different owners; every cancel by either owner") \
+        .env().inst().create_ask("seller", [(5, "base")], A1, "base", "q", "2", 5) \
+        .create_bid("buyer", [(10, "q")], A1, None, "2", "q", 10, 5) \
+        .rev("cancel_bid", "seller", A1, probe=True).rev("cancel_ask", "buyer", A1, probe=True) \
+        .rev("cancel_bid", "buyer", A1, probe=True).rev("cancel_ask", "seller", A1, probe=True) \
+        .rev("cancel_bid", "seller", A1).rev("cancel_bid", "buyer", A1).rev("cancel_ask", "seller", A1).write()
+    H("c16_c17_id_spellings", "orders addressed by other spellings of their id").env().inst() \
+        .create_ask("seller", [(5, "base")], A1, "base", "q", "2", 5).create_bid("buyer", [(10, "q")], B1, None, "2", "q", 10, 5) \
+        .query("get_ask", A1.replace("-", "")).query("get_ask", A1.upper()).query("get_ask", "urn:uuid:" + A1) \
+        .query("get_bid", B1.replace("-", "")).query("get_bid", "{" + B1 + "}") \
+        .rev("reject_ask", "exec", A1.upper(), 2).rev("expire_ask", "exec", A1.replace("-", "")) \
+        .rev("reject_bid", "exec", "urn:uuid:" + B1, 2).rev("cancel_bid", "buyer", "{" + B1 + "}").rev("cancel_ask", "seller", A1.upper()) \
+        .match("exec", A1.upper(), B1, "2", 1).match("exec", A1, B1.replace("-", ""), "2", 1).write()
+    H("c13_rate_spellings", "fee rates in spellings only some parsers accept").env().inst(afr="2.5e-3", afa="feea") \
+        .inst(bfr="1E-2", bfa="feeb").inst(afr="1e0", afa="feea").inst(afr=".5", afa="feea").inst(afr="5.", afa="feea") \
+        .inst(afr="0.5_", afa="feea").inst(afr="0_5", afa="feea").inst(afr="+.5", afa="feea").inst(afr="0.01", afa="feea") \
+        .modify("exec", afr="1e-2", afa="feea").modify("exec", bfr="2.5E-3", bfa="feeb").write()
     # known numeric classes (recorded findings): witnesses live in corpus/known/
     H("k_inexact_match", "K_inexact: precision 18, increment 1e18, price 0.999999999999999999, size 1e18+1").env() \
         .inst(precision=18, increment=10 ** 18) \
